@@ -314,12 +314,41 @@ func c08ViaLoaders(run *evid.Run, n int) {
 		if err != nil {
 			return
 		}
-		for _, loader := range []string{"manifest", "hash"} {
+		// the manifest identifier is a function of the manifest: publish, merge, publish again
+		other := w.NewLog((i + 1) % 2)
+		for k := 0; k < 2; k++ {
+			if oe, err := other.Append(w.Ctx, []byte(fmt.Sprintf("%d/%d/o%d", run.Seed, i, k)), nil); err == nil {
+				written[oe.GetHash().String()] = oe
+			}
+		}
+		if _, err := l.Join(other, -1); err == nil {
+			mc2, err2 := l.ToMultihash(w.Ctx)
+			want, err3 := w.IOv().Write(w.Ctx, store.New().API(), l.ToJSONLog(), nil)
+			run.Count("manifests_published_before_and_after_a_merge", 1)
+			if err2 != nil || err3 != nil || !mc2.Equals(want) {
+				run.Violate("C08/manifest-identifier", det("codec", codec), map[string]any{"case": i, "before_merge": mc.String(), "after_merge": mc2.String(), "encoding_of_current_manifest": want.String()},
+					"after a merge ToMultihash returned %v, but the log's current manifest encodes to %v (err %v %v)", mc2, want, err2, err3)
+			}
+			mc = mc2
+		}
+		for _, loader := range []string{"manifest", "hash", "json-shared-fetch-options"} {
 			var back *ipfslog.IPFSLog
-			if loader == "manifest" {
+			switch loader {
+			case "manifest":
 				back, err = w.LoadManifest(mc, 0, &hx.LoadOpts{})
-			} else {
+			case "hash":
 				back, err = w.LoadHash(l.Heads().Slice()[0].GetHash(), 0, &hx.LoadOpts{})
+			default:
+				// a caller that keeps ONE FetchOptions value around: first a log of another codec, then this one
+				fo := &entry.FetchOptions{}
+				wp := hx.NewWorld(run.Seed, 1, fmt.Sprintf("c08p-%d", i), "hash", map[bool]string{true: "cbor", false: "link"}[codec != "cbor"])
+				pl := wp.NewLog(0)
+				_, _ = pl.Append(wp.Ctx, []byte("p1"), nil)
+				_, _ = pl.Append(wp.Ctx, []byte("p2"), nil)
+				if _, perr := ipfslog.NewFromJSON(wp.Ctx, wp.Store.API(), wp.Idents[0], pl.ToJSONLog(), wp.LogOpts(wp.LogID), fo); perr != nil {
+					continue
+				}
+				back, err = ipfslog.NewFromJSON(w.Ctx, w.Store.API(), w.Idents[0], l.ToJSONLog(), w.LogOpts(w.LogID), fo)
 			}
 			run.Count("logs_read_back_via_"+loader+"_"+codec, 1)
 			d := det("codec", codec, "loader", loader)
@@ -327,8 +356,25 @@ func c08ViaLoaders(run *evid.Run, n int) {
 				run.Violate("C08/read-back-error", d, map[string]any{"case": i}, "reading a %s log back through the %s loader failed: %v", codec, loader, err)
 				continue
 			}
-			if back.Len() != len(written) {
-				run.Violate("C08/read-back-differs", d, map[string]any{"case": i, "written": len(written), "read": back.Len()}, "a log of %d entries written with the %s codec reads back %d entries through the %s loader", len(written), codec, back.Len(), loader)
+			expect := len(written)
+			if loader == "hash" {
+				// from one head hash only that head's causal past is reachable
+				seen := map[string]bool{}
+				stack := []string{l.Heads().Slice()[0].GetHash().String()}
+				for len(stack) > 0 {
+					hsh := stack[len(stack)-1]
+					stack = stack[:len(stack)-1]
+					if e, ok := written[hsh]; ok && !seen[hsh] {
+						seen[hsh] = true
+						for _, nx := range e.GetNext() {
+							stack = append(stack, nx.String())
+						}
+					}
+				}
+				expect = len(seen)
+			}
+			if back.Len() != expect {
+				run.Violate("C08/read-back-differs", d, map[string]any{"case": i, "written": expect, "read": back.Len()}, "a log of %d entries written with the %s codec reads back %d entries through the %s loader", expect, codec, back.Len(), loader)
 				continue
 			}
 			for _, b := range back.GetEntries().Slice() {
